@@ -356,6 +356,31 @@ static int do_rsp(char **tok, int ntok)
 	return 0;
 }
 
+/* the TRXDv0 header length the receive path works with: the private macro of trx_if.c where this tree has it, otherwise
+ * MEASURED on the receive path itself (shortest accepted datagram minus the GMSK burst it then carries) */
+static int measured_hdr_len(void)
+{
+#ifdef TRXDv0_HDR_LEN
+	return TRXDv0_HDR_LEN;
+#else
+	static uint8_t dg[TRXD_BUF_SIZE];
+	int len;
+	for (len = 1; len <= (int) sizeof(dg); len++) {
+		struct env e;
+		int rc, got;
+		memset(dg, 0, sizeof(dg));
+		env_open(&e, TRX_STATE_ACTIVE, TRX_STATE_IDLE, 2);
+		if (send(e.data_peer, dg, len, 0) != len) { perror("send"); exit(3); }
+		rc = trx_data_rx_cb(&e.trx->trx_ofd_data, OSMO_FD_READ);
+		got = (rc == 0 && rec.n_ind == 1) ? (int) rec.ind_burst_len : -1;
+		env_close(&e);
+		if (got > 0)
+			return len - got;
+	}
+	return -1;
+#endif
+}
+
 static int do_consts(void)
 {
 	const struct osmo_fsm *fsm = shim_registered_fsm();
@@ -364,7 +389,7 @@ static int do_consts(void)
 	fprintf(out, "TRXC_BUF_SIZE=%d TRXD_BUF_SIZE=%d TRXDv0_HDR_LEN=%d GSM_TDMA_HYPERFRAME=%d "
 		"GSM_NBITS_NB_GMSK_BURST=%d GSM_NBITS_NB_8PSK_BURST=%d GSM_PCHAN_MAX=%d CMD_SIZE=%zu "
 		"ENOMEM=%d EINVAL=%d ENOTSUP=%d ENOSPC=%d ENODEV=%d EIO=%d NUM_STATES=%u MASKS=",
-		TRXC_BUF_SIZE, TRXD_BUF_SIZE, TRXDv0_HDR_LEN, GSM_TDMA_HYPERFRAME,
+		TRXC_BUF_SIZE, TRXD_BUF_SIZE, measured_hdr_len(), GSM_TDMA_HYPERFRAME,
 		GSM_NBITS_NB_GMSK_BURST, GSM_NBITS_NB_8PSK_BURST, (int) _GSM_PCHAN_MAX, sizeof(tcm.cmd),
 		ENOMEM, EINVAL, ENOTSUP, ENOSPC, ENODEV, EIO, fsm->num_states);
 	for (i = 0; i < fsm->num_states; i++)
